@@ -54,6 +54,8 @@ def m1(ctx):
     state = None   # None / 'forgeable' / 'missing'
     wit = None
     types_last = True
+    uncond = True
+    wit_u = None
     for p in ctx.paths(f, 'plain'):
         if p.kind != 'return':
             continue
@@ -68,6 +70,9 @@ def m1(ctx):
         # the builder appends the separator unconditionally (items may follow on other paths)
         ai = cl.index('args')
         after = cl[ai + 1:]
+        if not after or after[0] != 'sep':
+            uncond = False
+            wit_u = fmt_trace(p.trace)
         nxt = [c for c in after if c != 'types']
         n += 1
         if 'items' in after:
@@ -89,6 +94,10 @@ def m1(ctx):
            'the delimiter between positional values and keyword pairs is the literal None, which is itself a legal '
            'argument value: f(1, None, "a") and f(1, a=None) build the same key, so a variadic function is served '
            'another call\'s result', f.loc(), wit if state == 'forgeable' else None),
+        Ob('M1', 'args_to_key/separator-unconditional', uncond,
+           'the delimiter after the positional values is appended only on some paths (e.g. only when keyword '
+           'arguments are present): a positional-only call such as f(1, None, "a", 2) then builds the same key as '
+           'f(1, a=2)', f.loc(), wit_u),
         Ob('M1', 'args_to_key/types-trail', types_last, 'type segments are not the trailing segments of the key', f.loc()),
     ]
 
@@ -176,8 +185,12 @@ def _is_user_call(e):
 def _passes_all_args(e):
     args = e.d['args']
     sk = e.d.get('starkw')
-    return len(args) == 1 and args[0].k == 'star' and args[0].a[0].k == 'param' and args[0].a[0].a[0] == '*args' \
-        and sk is not None and sk.k == 'param' and sk.a[0] == '**kwargs' and not e.d['kwargs']
+
+    def is_args(v, name):
+        return (v.k == 'param' and v.a[0] == ('*' if name == 'args' else '**') + name) or \
+            (v.k == 'free' and v.a[0] == name)
+    return len(args) == 1 and args[0].k == 'star' and is_args(args[0].a[0], 'args') \
+        and sk is not None and is_args(sk, 'kwargs') and not e.d['kwargs']
 
 
 @rule('M3', floor=12, title='memoize wrappers: sentinel lookup, call through with the same arguments, same key stored, zero expiry stores nothing')
@@ -257,4 +270,36 @@ def m3(ctx):
             if kind == 'stampede' and k == 'store-guard':
                 continue
             obs.append(Ob('M3', '%s/%s' % (kind, k), ok and nmiss > 0 and nhit > 0, msgs[k], f.loc(), wit))
+    # memoize_stampede: every helper closure calls through with all arguments, and the refresh thread gets them
+    outer = ctx.func('recipes.memoize_stampede.<locals>.decorator')
+    ok, why = True, ''
+    ncalls = 0
+
+    def all_nested(fn):
+        for g in fn.nested.values():
+            yield g
+            yield from all_nested(g)
+    for g in all_nested(outer):
+        for p in ctx.paths(g, 'plain'):
+            for e in p.trace:
+                if _is_user_call(e) and e.fn is g:
+                    ncalls += 1
+                    if not _passes_all_args(e):
+                        ok, why = False, '%s calls the function without (*args, **kwargs)' % g.qual
+                if e.kind == 'EXT' and e.d['name'] == 'threading.Thread' and e.fn is g:
+                    tgt = e.d['kwargs'].get('target')
+                    if tgt is not None and tgt.k == 'func':
+                        tf = ctx.prog.funcs.get(tgt.a[0])
+                        if tf is not None and (tf.posparams or tf.vararg or tf.kwarg or tf.kwonly):
+                            a, k = e.d['kwargs'].get('args'), e.d['kwargs'].get('kwargs')
+                            good_a = a is not None and any(x.k == 'param' and x.a[0] == '*args' for x in values_in(a))
+                            good_k = k is not None and any(x.k == 'param' and x.a[0] == '**kwargs' for x in values_in(k))
+                            if (tf.vararg or tf.posparams) and not good_a:
+                                ok, why = False, 'the refresh thread is started without the positional arguments'
+                            if (tf.kwarg or tf.kwonly) and not good_k:
+                                ok, why = False, 'the refresh thread is started without the keyword arguments of ' \
+                                                 'the call: it recomputes func(*args) and stores the result under ' \
+                                                 'the key of func(*args, **kwargs)'
+    obs.append(Ob('M3', 'stampede/helpers-call-through', ok and ncalls >= 2, why or 'helper closures not found',
+                  outer.loc()))
     return obs
